@@ -153,7 +153,10 @@ def _call(entry: str, x: dict, ctx: _Ctx):
         # one model instance with a missing wedge, molecules of different orientation (b) and content (c)
         name, what, _ = entry.split("_")
         m = ctx.model(name.upper(), shape, tilt=True)
-        quat = _Q[1] if x["b"] else _Q[2]
+        # two orientations that are inverse to each other (q and its conjugate differ only in signs): per-orientation state
+        # keyed too coarsely (|q|, rounded angles) confuses exactly such pairs
+        qa = np.array([0.18257419, 0.36514837, 0.54772256, 0.73029674])
+        quat = qa * np.array([-1.0, -1.0, -1.0, 1.0]) if x["b"] else qa
         sub = _blob(shape, ((0.6, -0.4, 0.3), (-0.5, 0.2, 0.7))[x["c"]])
         if what == "score":
             return np.array([float(m.score(sub, quat, np.zeros(3)))])
